@@ -1,7 +1,8 @@
 """C30 Raw SQL parameter substitution is faithful.
 
 Bounded-exhaustive: every SQL string that is a sequence of <= 3 (quick) / <= 4 (thorough) fragments
-of the alphabet in _c30_lib.FRAGS, x 5 parameter styles, through every entry point:
+of the alphabet in _c30_lib.FRAGS (raw_sql() fragments: <= 2 / <= 3), x 5 parameter styles, through
+every entry point:
   adapt_sql directly; Database.select/get/exists/execute; Entity.select_by_sql/get_by_sql;
   raw_sql() fragments inside queries (6 query forms)
 on 6 databases: SQLite (real engine, qmark), SQLite with paramstyle 'named' (real engine),
@@ -12,10 +13,15 @@ has bound the placeholders + the values in textual order (format/pyformat: DM dr
 model); on the real SQLite engine additionally the echoed rows.
 
 History part: all ORDERED PAIRS of (entry point, style, statement) items; the result of the second
-must equal its result in a pristine process. Cold references are computed by a zygote process that
-was forked before anything was adapted (one fork per item, so a newly added cache is covered
-without being known here); warm pairs are run in workers after clearing every `*_cache` dict, and
-every reported signature is confirmed by an isolated fork (pristine child runs exactly the pair).
+must equal its cold result. A zygote process forked before anything was adapted provides pristine
+processes: one pristine fork per core item (cold reference), two long histories (all items forward /
+backward, each in one pristine process) and an isolated re-run (pristine child runs exactly the
+minimal pair) of every history signature before it is reported. fork() costs 20 ms here and does
+not parallelise, so the ordered pairs themselves run in the workers, separated by restoring the
+pristine content of every dict/list/set and *cache* attribute of all pony modules, Database,
+provider, entity and attribute objects (snapshot_pristine) - a cache added later is reset without
+being named here; a statement that does not reproduce its cold reference after the restore is
+itself reported.
 """
 import os, sys, json, itertools, sqlite3, atexit, shutil
 from vf import core
@@ -640,11 +646,11 @@ def run(ctx):
                                       dict(part='long', sequence=[list(ITEMS[k]) for k in seq[:pos + 1]], got=res[pos], cold=COLD[i]),
                                       'after %d earlier statements in a pristine process %s gives %s, cold %s' % (pos, ITEMS[i][0], res[pos][:160], COLD[i][:160]))
         # ---- sweep
-        amax, emax = (3, 2) if ctx.quick else (4, 3)
+        amax, emax, rmax = (3, 3, 2) if ctx.quick else (4, 4, 3)
         jobs = []
         for ch, layout in all_channels():
             grp = ch.partition(':')[0].split('.')[0]
-            ml = amax if grp == 'adapt' else emax
+            ml = amax if grp == 'adapt' else rmax if grp == 'rawq' else emax
             nseq = len(sequences(ml, layout))
             nparts = max(1, min(32, nseq * (12 if grp == 'rawq' else 1) // 1500))
             for p in range(nparts): jobs.append((ch, layout, ml, p, nparts))
@@ -692,7 +698,7 @@ def run(ctx):
     ctx.assume('fork costs 20 ms here and does not parallelise, so only the core items, two long histories over all items and every reported signature use pristine forked processes; the other cold references and the separation of the ordered pairs restore the pristine content of every dict/list/set and *cache* attribute of all pony modules, Database, provider, entity and attribute objects (a cache added later is covered unless it lives in a closure)')
     ctx.cov['history_items'] = n
     ctx.cov['fragment_alphabet'] = lib.NAMES
-    ctx.cov['max_fragments'] = dict(adapt_sql=amax, entry_points=emax)
+    ctx.cov['max_fragments'] = dict(adapt_sql=amax, select_get_exists_execute_by_sql=emax, raw_sql_in_queries=rmax)
     return dict(evaluations=c.get('evaluations', 0) + c.get('pairs', 0) + c.get('long_history_steps', 0),
                 distinct_nontrivial=distinct + c.get('pairs_distinct_items', 0),
                 rule='sweep: every fragment sequence up to the bound (deduplicated by statement text) x entry point x database/paramstyle x {frame scope, explicit dicts}; '
